@@ -318,15 +318,7 @@ def compactOutput (s : Lsm) (cd : CompactDef) (discardTs numKeep now : Nat) : Li
   let merged := mergeAll (topSrcs ++ [(validBots.map (·.ents)).flatten])
   -- L0→L0 counts as overlapping (fix of finding F1: the L0 tables left out of the compaction are
   -- not inspected by `checkOverlap`)
-  -- and so does an L0 compaction that leaves behind an L0 table whose key range overlaps the range
-  -- of the tables taken (fix of finding F28, `l0LeftBehindOverlaps`: L0 is not always in age order,
-  -- the table left behind may hold older versions of the keys being compacted)
-  let leftBehind := cd.thisLevel == 0 && (removeIdx thisT cd.top).any (fun t =>
-    match t.keyRange with
-    | some d => rangeOverlaps (rangeOfTables tops) d
-    | none => false)
-  let hasOverlap := (cd.thisLevel == 0 && cd.nextLevel == 0) ||
-    checkOverlap s (tops ++ bots) (cd.nextLevel + 1) || leftBehind
+  let hasOverlap := (cd.thisLevel == 0 && cd.nextLevel == 0) || checkOverlap s (tops ++ bots) (cd.nextLevel + 1)
   (subcompact { discardTs, numKeep, hasOverlap, now, dropPrefixes := cd.dropPrefixes } merged, hasOverlap)
 
 /-- `runCompactDef`: `nextLevel.replaceTables(bot, new)` (sorted by `Smallest`, on every level,
